@@ -1,7 +1,7 @@
 """C04 - No deadlock among API calls and internal threads, including nested submission."""
 import random
 
-from . import c01, chain
+from . import c01, c06, c11, chain
 
 TRACE = "DeadlockObsTrace"
 
@@ -58,6 +58,17 @@ def run(ck):
                                                       bool(p.get("shutdown"))),
                       "facts": {"base": p["base"], "nested": any(s.get("nested") or s.get("nested_cb") for s in p["subs"]),
                                 "retry": any(l["t"] == "retry" for l in p["layers"])}})
+    # the cancel-heavy and shutdown-heavy stack families of C06 / C11, judged for blocked threads here
+    for i in range(250 if quick else 5000):
+        p = (c06.gen if i % 2 else c11.gen)(rng, i)
+        p["horizon"] = 60000
+        strat = ["random", rng.randrange(10 ** 9), 0.5] if i % 3 else ["pct", rng.randrange(10 ** 9), 4, 300]
+        tasks.append({"scen": "stack", "params": p, "strat": strat, "gran": "line" if i % 6 == 0 else "sync",
+                      "lock_log": True,
+                      "lock_key": "stack/%s/%s/%s" % (p["base"], ",".join(l["t"] for l in p["layers"]),
+                                                      bool(p.get("shutdown"))),
+                      "facts": {"base": p["base"], "nested": False, "retry": any(l["t"] == "retry" for l in p["layers"]),
+                                "family": "c06" if i % 2 else "c11"}})
     pairs = ck.run_and_validate(tasks, TRACE)
     # the lock programs of those executions, interleaved exhaustively by TLC (spec/LockCases.tla); candidate cycles
     # are steered towards in the real code and only a deadlock that really happens there is reported
